@@ -286,10 +286,14 @@ func (m *wrappedMarshalledPhysicalFeature) Polyline() *s2.Polyline {
 	m.lock.Lock()
 	defer m.lock.Unlock()
 	if m.polyline == nil {
-		m.polyline = make(s2.Polyline, m.GeometryLen())
+		// Only keep the polyline once it's complete: PointAt panics if
+		// a point is missing, for example because the index that holds
+		// it hasn't been merged yet, and the feature may be cached.
+		polyline := make(s2.Polyline, m.GeometryLen())
 		for i := 0; i < m.GeometryLen(); i++ {
-			m.polyline[i] = m.PointAt(i)
+			polyline[i] = m.PointAt(i)
 		}
+		m.polyline = polyline
 	}
 	return &m.polyline
 }
